@@ -16,9 +16,26 @@ CLAIMS = {
     'C08': claim('Time add/sub of 6 units for all u32 counts, Time+-Time, Time+-Duration, constructors, From<DateTime>: result in [0, 24h), value = (t +- amount) mod 24h, offset kept.', '3/C08'),
     'C09': claim('10 setters and 9 clears on DateTime (all offsets, two-day margin at the range ends), Date and Time: the result is characterised completely in local time (edited local day / time of day, everything else equal), Err exactly for invalid values.', '3/C09'),
     'C10': claim('set_offset keeps the instant, getters read the shifted instant, as_offset keeps fields and moves the instant, Offset constructors/resolve_hms, Time variants, for all instants (one-day margin) x all offsets.', '3/C10'),
+    'C13': claim('READ side only: DateTime::parse_rfc3339 is executed from MIR on bounded symbolic strings (every byte symbolic) and compared with a reference reader written from the RFC 3339 ABNF: '
+                 'one obligation per shape (0..=21 fraction digits quick / 0..=25 thorough, Z or numeric offset; all digits symbolic): grammatical and in range => exactly that instant, offset and truncated fraction; out-of-range field => Err. '
+                 'The write side (format_rfc3339) builds Strings through the pattern formatter and is not decided.', '3/C13',
+                 technique='MIR symbolic execution with a bounded string model -> SMT, per ABNF shape; native replay'),
+    'C14': claim('PARTIAL: only DateTime::parse_rfc3339 and DateTime::from_str: for every string of each listed byte length (<= 45) over ASCII and two-byte UTF-8 sequences (char-boundary panics of str slicing modelled) the call returns Ok/Err and every Ok value is a valid in-range DateTime. '
+                 'parse()/format() with pattern strings, Date/Time::from_str and CronSchedule::parse are NOT decided (String/Vec<String> tokenizer code is out of reach of both engines).', '3/C14',
+                 technique='MIR symbolic execution with a bounded string model (bytes, char boundaries) -> SMT; native replay'),
+    'C17': claim('CronSchedule::next decided by a loop-invariant cut of its real CFG, for ALL schedules at once (five symbolic sets): prologue (start = max(now minute, last) + 1 min, restriction flags), exit edge (returns a matching whole minute and records it), and each of the four continue edges '
+                 '(later whole minute, no matching minute skipped; field-constancy lemmas about the getters discharged in the same run). Any number of carry steps and call histories follow by induction (stated meta-step). Clock/loop state in 2022-2025 (quick) or 1970-9999 (thorough), offset 0. Counterexamples are replayed end to end against the real next() and a minute-by-minute search.', '3/C17',
+                 technique='MIR symbolic execution started at CFG cut points (loop invariant), symbolic sets, UF getters + proven lemmas -> SMT; native end-to-end replay'),
     'C15': claim('from_ymdhms/from_hms/from_seconds/from_nanos/Offset constructors/set_*: Ok exactly for valid arguments with the oracle value; stated ranges exclude the rejected value and contain every accepted one (relational query), over the full parameter domains.', '3/C15'),
 }
-NOT_APPLICABLE = {}
+NOT_APPLICABLE = {
+    'C11': 'format(): every path builds Strings through parse_format_string (Vec<String> tokenizer) and format!; CBMC exhausts memory on the tokenizer even for concrete patterns and the MIR engine has no faithful model of that much of alloc::string/alloc::vec. The one-symbol term-algebra layer sketched in DESIGN.md was not built in this revision. The values the fields render (weekday, week, quarter, day of year, clock fields under offsets) are decided by C02/C08/C10.',
+    'C12': 'parse(format(v, p), p): both directions run through the String/Vec<String> tokenizer and char-level consumers, out of reach of CBMC (memory) and of the MIR engine (no model of alloc::string at that scale); deciding it on concrete patterns and values would be enumeration, not solving.',
+    'C16': 'the quantified object is the cron expression string; parse_cron_part is split/strip_prefix/to_lowercase/HashSet::extend code that neither engine can execute symbolically. The set semantics once a schedule exists are covered by C17 for all value sets.',
+    'C18': 'TZif lookup: the footer text (POSIX TZ string) and the rule-based lookups run through from_utf8/trim_matches/Cursor closures and Vec-returning calendar helpers; Kani does not finish on them, and even the table-only Kani harnesses built here (props/append_local-timezone__verif_tz.rs) did not finish their successful-path proofs within 5 minutes per harness, so nothing is claimed. Two genuine defects found on the way were repaired (known_findings.json).',
+    'C19': 'hostile TZif data: same reach problem as C18; the Kani harnesses for version-1 shapes found the unchecked type index (repaired) but do not finish on the repaired tree within the caps, so the property is not claimed.',
+    'C20': 'Display/FromStr/serde: every path is format()/parse() on Strings (plus the optional serde dependency, which is not in the offline build); the one reachable piece, DateTime::from_str == parse_rfc3339, is covered under C13/C14.',
+}
 PENDING = 'check not built yet in this revision (planned with the same solver-based technique, see DESIGN.md section 3)'
 ALL = ['C%02d' % i for i in range(1, 21)]
 
@@ -45,6 +62,7 @@ def manifest():
         'hooks': {'guard': 'none', 'enable': 'no source hooks: checks copy /repo/src into a scratch crate and inject /verif/props (cron properties build the copy with --cfg test to use the crate\'s own clock pin)',
                   'baseline_off_cmd': 'cd /repo && cargo test --workspace --no-fail-fast --offline', 'source_commits': [], 'add_only': True},
         'engines': [
+            {'name': 'engine_k', 'path': '/verif/engine_k.py', 'serves_properties': [], 'kind_free_text': 'Kani/CBMC harness runner for the TZif reader (built; its harnesses do not finish within the caps on this code, so it serves no registered check)'},
             {'name': 'engine_m', 'path': '/verif/engine_m', 'serves_properties': sorted(CLAIMS), 'kind_free_text': 'symbolic executor for rustc MIR text -> SMT-LIB2 (linear integer arithmetic + UF), solvers cvc5 / z3 raced; native replay of every counterexample'},
         ],
         'checks': checks,
